@@ -46,6 +46,13 @@ STAMPED = {
                    "1, u32", ["a1", "a2"], "a1=1,a2=2"),
     "item_frag": ("($i:item, $s:item)", "pub fn a1(deps: &impl ::core::any::Any) -> u32 { 1 }\n        $i\n        pub fn a3(deps: &impl ::core::any::Any) -> u32 { 3 }\n        $s\n        pub(crate) fn a5(deps: &impl ::core::any::Any) -> u32 { 5 }",
                   "fn p2(deps: &impl ::core::any::Any) -> u32 { 2 }, pub struct S4 { pub f: u8 }", ["a1", "a3", "a5"], "a1=1,a3=3,a5=5"),
+    # item fragments that end in `;` (and do not start with a visibility), each directly followed by a visible fn
+    "item_semi": ("($i:item, $s:item, $u:item)", "$i\n        pub fn a1(deps: &impl ::core::any::Any) -> u32 { 1 }\n        $s\n        pub fn a3(deps: &impl ::core::any::Any) -> u32 { 3 }\n        $u\n        pub(crate) fn a5(deps: &impl ::core::any::Any) -> u32 { 5 }",
+                  "use ::core::any::Any as _;, struct S2;, const K4: u8 = 1;", ["a1", "a3", "a5"], "a1=1,a3=3,a5=5"),
+    # an item fragment whose body is itself a block fragment (two macro levels), directly followed by a visible fn
+    "item_nested": ("($i:item, $s:item)", "pub fn a1(deps: &impl ::core::any::Any) -> u32 { 1 }\n        $i\n        pub fn a3(deps: &impl ::core::any::Any) -> u32 { 3 }\n        $s\n        pub(crate) fn a5(deps: &impl ::core::any::Any) -> u32 { 5 }",
+                    None, ["a1", "a3", "a5"], "a1=1,a3=3,a5=5",
+                    "macro_rules! mk2 { ($b:block) => { mk!(fn p2(deps: &impl ::core::any::Any) -> u32 $b, pub struct S4 { pub f: u8 }); } }\n    mk2!({ 2 });"),
     "vis_ident": ("($v:vis, $n:ident)", "$v fn $n(deps: &impl ::core::any::Any) -> u32 { 1 }\n        pub fn a2(deps: &impl ::core::any::Any) -> u32 { 2 }",
                   "pub(crate), a1", ["a1", "a2"], "a1=1,a2=2"),
 }
@@ -57,7 +64,7 @@ def compilable(s):
 
 def model(s):
     if s.get("stamped"):
-        _, _, _, methods, calls = STAMPED[s["stamped"]]
+        methods, calls = STAMPED[s["stamped"]][3:5]
         return dict(methods=methods, calls=calls, outer=calls)
     methods = ["a%d" % n for n, sym in enumerate(s["items"], 1) if gen.MOD_ITEMS[sym]["member"]]
     calls = None
@@ -80,9 +87,10 @@ def call_expr(sym, n, recv="app"):
 
 def render_stamped(s):
     key = s["key"]
-    pat, body, args, methods, calls = STAMPED[s["stamped"]]
+    pat, body, args, methods, calls = STAMPED[s["stamped"]][:5]
+    invoke = STAMPED[s["stamped"]][5] if len(STAMPED[s["stamped"]]) > 5 else "mk!(%s);" % args
     L = ["mod %s {" % key, "    use super::rt;", "    macro_rules! mk { %s => {" % pat, "    #[::entrait::entrait(pub Tr)]", "    pub mod m {",
-         "        " + body, "    }", "    } }", "    mk!(%s);" % args]
+         "        " + body, "    }", "    } }", "    " + invoke]
     for name, head in (("client", "    #[deny(unused_unsafe)] pub fn client() {"),):
         L.append(head)
         L.append("        let app = ::entrait::Impl::new(());")
